@@ -30,7 +30,7 @@ def gen_cases(tier, seed):
     entries = ["ad", "ad_nosr", "ad_norot", "ad_nosr_norot"]
     for entry in entries:
         for wt in ("rhf", "uhf"):
-            for rep in range(1 if q else 4):
+            for rep in range((2 if entry in ("ad", "ad_norot") else 1) if q else 4):
                 single = bool(rep % 2 == 0)
                 shape = [int(rng.integers(2, 5)), 1 if single else 2, 1 if single else int(rng.integers(1, 3))]
                 cases.append({"type": "deriv", "entry": entry, "wt": wt, "shape": shape, "dt": float(rng.choice([0.01, 0.03])),
